@@ -2054,6 +2054,39 @@ class MiniInterp:
             self.call(self.prj.func(post.qual, raw=True), [], {}, obj)
         return obj
 
+    def model_hash(self, v, node=None, depth=0):
+        """hash(v) in a model where the hash is injective on values: T("hash", canonical form).  Equal canonical forms are equal
+        values (equal real hashes); different canonical forms stand for different real hashes (collisions are not modelled)."""
+        if depth > 8:
+            raise Unknown("hash of a deeply nested value")
+        if isinstance(v, Sym) and v.cls is not None:
+            m = v.cls.find_method("__hash__")
+            if m is not None:
+                r = self.call(self.prj.func(m.qual, raw=True), [], {}, v)
+                if isinstance(r, T) and r and r[0] in ("hash", "id"):
+                    return r
+                if isinstance(r, int) and not isinstance(r, bool):
+                    return T("hash", ("int", r))
+                raise Unknown(f"__hash__ of {v.cls.name} returns {r!r}")
+            if v.cls.find_method("__eq__") is not None and not v.cls.is_dataclass():
+                raise PyRaise("TypeError", node)
+            return T("hash", ("obj", v.uid))
+        if isinstance(v, Sym):
+            return T("hash", ("obj", v.uid))
+        if isinstance(v, T):
+            if v and v[0] in ("hash", "id"):
+                return T("hash", ("int",) + tuple(v))
+            return T("hash", ("marker",) + tuple(x if isinstance(x, (str, int)) else getattr(x, "qual", repr(x)) for x in v))
+        if isinstance(v, bool) or v is None or isinstance(v, (int, float, str, bytes)):
+            return T("hash", ("val", v))
+        if type(v) is tuple:
+            return T("hash", ("tuple",) + tuple(self.model_hash(x, node, depth + 1) for x in v))
+        if isinstance(v, (list, dict, set, ISet)) and not isinstance(v, frozenset):
+            raise PyRaise("TypeError", node)
+        if isinstance(v, EnumInt):
+            return T("hash", ("val", int(v)))
+        raise Unknown(f"hash of {type(v).__name__}")
+
     def pull(self, v):
         """a Python generator that takes elements of v one at a time (iterators and generators are not drained in advance)"""
         if isinstance(v, LazyIter):
@@ -2265,6 +2298,8 @@ class MiniInterp:
                 raise Unknown("next() of a non-iterator")
             if name == "id":
                 return T("id", args[0].uid) if isinstance(args[0], Sym) else T("id", id(args[0]))
+            if name == "hash" and len(args) == 1:
+                return self.model_hash(args[0], node)
             if name == "object" and not args:
                 return Sym("object()")
             if name == "super" and not args:
